@@ -34,7 +34,7 @@ def materialise(name, k, spec, invs, base, constraint=True):
     cfgp = os.path.join(d, "run.cfg")
     with open(cfgp, "w") as f:
         f.write(f"CONSTANTS\n  Prefix = {ts(k['prefix'])}\n  Src = {ts(k['src'])}\n  SrcRank <- cRank\n  Obs = \"{k['obs']}\"\n"
-                f"  Cls = {ts(k['cls'])}\n  Reject = {{}}\n  SendMax = {k['sendmax']}\n  MaxChan = {k['maxchan']}\n"
+                f"  Cls = {ts(k['cls'])}\n  Reject = {ts(k.get('reject', []))}\n  SendMax = {k['sendmax']}\n  MaxChan = {k['maxchan']}\n"
                 f"  LidMode = \"{k.get('lid', 'abstract')}\"\n  Dev = {ts(k.get('dev', []))}\n"
                 f"SPECIFICATION {spec}\n" + ("CONSTRAINT ChanBound\n" if constraint else "") +
                 f"INVARIANTS {' '.join(invs)}\nCHECK_DEADLOCK FALSE\n")
@@ -66,8 +66,10 @@ def run_harness(tag, seqs):
     inp = os.path.join(vf.WORK, f"C01.{tag}.in")
     outp = os.path.join(vf.WORK, f"C01.{tag}.out")
     with open(inp, "w") as f:
-        for sid, sendmax, ops in seqs:
-            f.write(f"seq {sid} {sendmax}\n")
+        for sq in seqs:
+            sid, sendmax, ops = sq[0], sq[1], sq[2]
+            reject = sq[3] if len(sq) > 3 and sq[3] else "-"
+            f.write(f"seq {sid} {sendmax} {reject}\n")
             for o in ops:
                 f.write(o + "\n")
     if os.path.exists(outp):
@@ -100,9 +102,12 @@ def main(c):
     thorough = c.tier == "thorough"
     devs = known_devs(c)
     designs = [("d1", {"prefix": ["p1", "p2"], "src": ["s1", "o"], "obs": "o", "cls": ["x"], "sendmax": 1, "maxchan": 2}),
-               ("d2", {"prefix": ["p1"], "src": ["s1", "s2", "o"], "obs": "o", "cls": ["x", "y"], "sendmax": 2, "maxchan": 2})]
+               ("d2", {"prefix": ["p1"], "src": ["s1", "s2", "o"], "obs": "o", "cls": ["x", "y"], "sendmax": 2, "maxchan": 2}),
+               # with an export policy that rejects class y: "filtered" and "replaced by a non-exportable best"
+               ("d5", {"prefix": ["p1"], "src": ["s1", "s2", "o"], "obs": "o", "cls": ["x", "y"], "reject": ["y"], "sendmax": 2, "maxchan": 2})]
     if thorough:
-        designs += [("d3", {"prefix": ["p1", "p2"], "src": ["s1", "s2", "o"], "obs": "o", "cls": ["x"], "sendmax": 2, "maxchan": 2}),
+        designs += [("d6", {"prefix": ["p1", "p2"], "src": ["s1", "s2"], "obs": "o", "cls": ["x", "y"], "reject": ["y"], "sendmax": 1, "maxchan": 2}),
+                    ("d3", {"prefix": ["p1", "p2"], "src": ["s1", "s2", "o"], "obs": "o", "cls": ["x"], "sendmax": 2, "maxchan": 2}),
                     ("d4", {"prefix": ["p1", "p2"], "src": ["s1", "s2"], "obs": "o", "cls": ["x", "y"], "sendmax": 1, "maxchan": 3})]
     for name, k in designs:
         d, m, cfgp = materialise(name, k, "Spec", INVS, "Export")
@@ -125,8 +130,10 @@ def main(c):
             raise vf.ToolError(f"deviation {dv} is listed as a known finding but the model with it satisfies the property")
     # conformance: random behaviours of the as-implemented model on the real pipeline
     walks_cfg = [("w1", {"prefix": ["p1", "p2"], "src": ["s1", "s2", "o"], "obs": "o", "cls": ["x", "y"], "sendmax": 1, "maxchan": 3}),
-                 ("w2", {"prefix": ["p1", "p2"], "src": ["s1", "s2", "o"], "obs": "o", "cls": ["x", "y"], "sendmax": 2, "maxchan": 3})]
-    nwalks, depth = (1500, 30) if thorough else (250, 25)
+                 ("w2", {"prefix": ["p1", "p2"], "src": ["s1", "s2", "o"], "obs": "o", "cls": ["x", "y"], "sendmax": 2, "maxchan": 3}),
+                 ("w3", {"prefix": ["p1", "p2"], "src": ["s1", "s2", "o"], "obs": "o", "cls": ["x", "y"], "reject": ["y"], "sendmax": 1, "maxchan": 3}),
+                 ("w4", {"prefix": ["p1", "p2"], "src": ["s1", "s2", "o"], "obs": "o", "cls": ["x", "y"], "reject": ["y"], "sendmax": 2, "maxchan": 3})]
+    nwalks, depth = (1500, 30) if thorough else (500, 25)
     allw = []
     hseqs = []
     for wi, (name, k) in enumerate(walks_cfg):
@@ -150,7 +157,8 @@ def main(c):
         for si, w in enumerate(walks):
             sid = f"{name}/{si}"
             nd = w[-1]["chan"]
-            hseqs.append((sid, k["sendmax"], [line(stp["op"]) for stp in w] + ["deliver"] * nd + ["flush", "fresh"]))
+            hseqs.append((sid, k["sendmax"], [line(stp["op"]) for stp in w] + ["deliver"] * nd + ["flush", "fresh"],
+                          (k.get("reject") or [None])[0]))
             allw.append((sid, k, w, nd))
         c.cov["parts"]["walks-" + name] = {"walks": len(walks), "constants": k}
     got = run_harness("walks", hseqs)
@@ -208,6 +216,7 @@ def main(c):
         c.sample({"config": allw[0][1], "ops": [line(x["op"]) for x in allw[0][2][:12]]})
     c.assumptions += [
         "ranking among sources is by router-id only (all other steps tie), LLGR-stale last; path ids are compared modulo renaming",
-        "export policy is empty in the replay (policy evaluation itself is C14); roles other than eBGP are C09",
+        "half of the behaviours run under an export policy that rejects one attribute class (policy evaluation itself is C14); "
+        "roles other than eBGP are C09",
         "the observing neighbour also appears as a source so that echo suppression is exercised",
     ]
